@@ -110,6 +110,15 @@ func init() {
 			}
 			res.Samples = []any{"store(1,10) storeif-lower(1,15) delete(2) json-roundtrip"}
 			res.Notes = []string{"real wrapper.ConcurrentSwissMap vs plain map: every operation sequence up to length 5 (6 thorough) over 2 keys"}
+			// the real file backend: every sequence of <= 3 saves of three states into ONE file (a later state may
+			// be shorter than the one it replaces), re-loaded after every save; plus every byte prefix of each file
+			tf := tornFilePure("C02")(tier)
+			res.Evaluations += tf.Evaluations
+			res.Distinct += tf.Distinct
+			res.States += tf.States
+			res.Transitions += tf.Transitions
+			res.Violations = append(res.Violations, tf.Violations...)
+			res.Notes = append(res.Notes, tf.Notes...)
 			return res
 		},
 		Instances: func(tier string) []Instance {
@@ -414,7 +423,7 @@ func tornFilePure(prop string) func(tier string) *PureResult {
 		}
 		res.Evaluations, res.Distinct, res.States, res.Transitions = wr.Evaluations, wr.Sequences, wr.Sequences, wr.Evaluations
 		for _, v := range wr.Violations {
-			res.Violations = append(res.Violations, pureViolation(prop, "checkpoint file torn by a crash inside the write: "+v))
+			res.Violations = append(res.Violations, pureViolation(prop, "file metadata backend (real code, real map): "+v))
 		}
 		res.Samples = []any{"3 saved states x every byte prefix of the file, real metadata.fileMetadata.Load on the real wrapper.ConcurrentSwissMap"}
 		res.Notes = []string{"non-overlay binary: real file backend and real sharded map; every byte prefix of three checkpoint files"}
